@@ -4,7 +4,17 @@ import ScyllaVerif.Model.Timestamp
 `seq <calls> <script>`: single-thread run, deterministic.
 `mt <calls> <script0>|<script1>|…`: multi-thread run; the model is a *checker*: it decides whether the observed
 per-thread value lists are producible by some interleaving of the CAS loop (every successful CAS has loaded
-the previously installed value, so the global order is the order by value). -/
+the previously installed value, so the global order is the order by value).
+Warnings configuration word `W`: `-` = `without_warnings()`, `d` = `new()` (1 s / 1 s), `<thr_us>/<ivl_ns>` or
+`<thr_us>/max` (= `Duration::MAX`) = `with_warning_times`.
+`seqw <W> <calls> <script>`: single thread on a warning-configured generator; per call the value or `P` (the call
+panicked), then the numbers of `warn!` events (`we` behind-epoch, `ws` skew); exact when the interval is 0 or `max`,
+otherwise `ws` is checked against its upper bound.
+`mtw <W> <calls> <scripts>`: `mt` on a warning-configured generator (values checked as in `mt`).
+`mtp <W> <threads> <per> <r0,r1,…>`: paced rounds: in round k every thread's clock reads r_k, `per` calls per thread;
+round k ends before round k+1 starts, so the witness schedule is built round by round.
+`mtreal <W> <threads> <rounds> <per> <pause_us>`: the same on the REAL clock: the readings are existentially
+quantified (a value above its predecessor is a clock reading, otherwise it must be predecessor + 1). -/
 namespace ScyllaVerif.Drive.C18
 open ScyllaVerif.Util ScyllaVerif.Timestamp
 
@@ -48,36 +58,174 @@ def replay (scripts : List (List (Option Nat))) : List (Nat × Int) → Int → 
       let clock := (readingAt script p).map microsAsI64
       replay scripts rest v (setAt pos t (p + 1)) (.cas t :: .compute t clock :: .load t :: acc)
 
+def parseThr (s : String) : Option Int := s.toNat?.map microsAsI64
+
+/-- `Duration::MAX` in nanoseconds -/
+def durationMaxNs : Nat := (2 ^ 64 - 1) * 1000000000 + 999999999
+
+/-- warnings word → (configuration, interval is `max`) -/
+def parseW (s : String) : Option (Option WarnCfg × Bool) :=
+  if s == "-" then some (none, false)
+  else if s == "d" then some (some ⟨1000000, 1000000000⟩, false)
+  else match s.splitOn "/" with
+    | [thr, ivl] =>
+      match parseThr thr with
+      | none => none
+      | some t =>
+        if ivl == "max" then some (some ⟨t, durationMaxNs⟩, true)
+        else ivl.toNat?.map (fun i => (some ⟨t, i⟩, false))
+    | _ => none
+
+def callList (xs : List (Option (Int × Warned))) : String :=
+  if xs.isEmpty then "-" else ",".intercalate (xs.map fun
+    | some (v, _) => toString v
+    | none => "P")
+
+def countW (k : Warned) (xs : List (Option (Int × Warned))) : Nat :=
+  (xs.filter fun | some (_, w) => w == k | none => false).length
+
+/-- `key=<nat>` -/
+def kv (key s : String) : Option Nat :=
+  match s.splitOn "=" with
+  | [k, v] => if k == key then v.toNat? else none
+  | _ => none
+
+/-- impl line `<values> we=<n> ws=<n>` → (values part, we, ws) -/
+def splitCounts (impl : String) : Option (String × Nat × Nat) :=
+  match words impl with
+  | [vals, we, ws] =>
+    match kv "we" we, kv "ws" ws with
+    | some a, some b => some (vals, a, b)
+    | _, _ => none
+  | _ => none
+
+/-- the `mt` checker on the `|`-separated per-thread value lists: `none` = accepted -/
+def checkMt (scs : List (List (Option Nat))) (vals : String) : Option String :=
+  match (vals.splitOn "|").mapM parseIntList with
+  | none => some "unparsable"
+  | some perThread =>
+    if perThread.length ≠ scs.length then some "thread-count" else
+    let tagged : List (Nat × Int) :=
+      (perThread.zipIdx.map (fun (vs, t) => vs.map (fun v => (t, v)))).flatten
+    let sorted := tagged.mergeSort (fun a b => a.2 ≤ b.2)
+    -- per-thread order must agree with the global order
+    let perThreadOk := perThread.all (fun vs => vs.zip vs.tail |>.all (fun (a, b) => a < b))
+    let distinct := (sorted.zip sorted.tail).all (fun (a, b) => a.2 < b.2)
+    if !perThreadOk then some "per-thread-order"
+    else if !distinct then some "duplicate"
+    else match replay scs sorted 0 (List.replicate scs.length 0) [] with
+      | .error why => some why
+      | .ok evs =>
+        -- the witness schedule is run through the MODEL's state machine (`Timestamp.run`, the object of
+        -- the C18 theorems): its log of successful CASes must be exactly the observed values
+        if (Timestamp.run St.init evs).log == sorted then none
+        else some "model-run-differs"
+
+/-- One round: the values (already in value order) must be `compute_next(predecessor, the round's reading)`;
+`spec = none`: real clock - the reading is whatever makes the step valid (`some v` when `v` exceeds its predecessor). -/
+def replayRound (spec : Option (Option Nat)) : List (Nat × Int) → Int → List Ev → Except String (Int × List Ev)
+  | [], prev, acc => .ok (prev, acc)
+  | (t, v) :: rest, prev, acc =>
+    let clock : Option Int := match spec with
+      | some r => r.map microsAsI64
+      | none => some v
+    if computeNext prev clock = v then replayRound spec rest v (.cas t :: .compute t clock :: .load t :: acc)
+    else .error s!"value {v} of thread {t} is not compute_next({prev}, the round's reading)"
+
+def replayRounds (perThread : List (List Int)) (per : Nat) :
+    List (Option (Option Nat)) → Nat → Int → List Ev → List (Nat × Int) → Except String (List Ev × List (Nat × Int))
+  | [], _, _, acc, seen => .ok (acc.reverse, seen)
+  | spec :: specs, k, prev, acc, seen =>
+    let tagged : List (Nat × Int) :=
+      (perThread.zipIdx.map (fun (vs, t) => ((vs.drop (k * per)).take per).map (fun v => (t, v)))).flatten
+    let sorted := tagged.mergeSort (fun a b => a.2 ≤ b.2)
+    match replayRound spec sorted prev acc with
+    | .error why => .error s!"round {k}: {why}"
+    | .ok (prev', acc') => replayRounds perThread per specs (k + 1) prev' acc' (seen ++ sorted)
+
+/-- the rounds checker (`mtp`, `mtreal`): `none` = accepted -/
+def checkRounds (threads per : Nat) (specs : List (Option (Option Nat))) (vals : String) : Option String :=
+  match (vals.splitOn "|").mapM parseIntList with
+  | none => some "unparsable"
+  | some perThread =>
+    if perThread.length ≠ threads then some "thread-count"
+    else if perThread.any (fun vs => vs.length ≠ specs.length * per) then some "value-count"
+    else
+      let all := (perThread.flatten).mergeSort (fun a b => a ≤ b)
+      let perThreadOk := perThread.all (fun vs => vs.zip vs.tail |>.all (fun (a, b) => a < b))
+      let distinct := (all.zip all.tail).all (fun (a, b) => a < b)
+      if !perThreadOk then some "per-thread-order"
+      else if !distinct then some "duplicate"
+      else match replayRounds perThread per specs 0 0 [] [] with
+        | .error why => some why
+        | .ok (evs, seen) =>
+          if (Timestamp.run St.init evs).log == seen then none else some "model-run-differs"
+
 def run (case impl : String) : String :=
   match words case with
   | ["seq", calls, script] =>
     match calls.toNat?, parseScript script with
     | some n, some sc => intList (seqRun n 0 sc none)
     | _, _ => "bad-case"
+  | ["seqw", w, calls, script] =>
+    match parseW w, calls.toNat?, parseScript script with
+    | some (cfg, isMax), some n, some sc =>
+      let exact := isMax || (match cfg with | none => true | some c => c.intervalNs == 0)
+      if exact then
+        let r := seqRunW cfg id n 0 sc none ⟨0, false⟩
+        s!"{callList r} we={countW .epoch r} ws={countW .skew r}"
+      else
+        -- a finite non-zero interval: whether it has elapsed is up to the real monotonic clock; the values do not
+        -- depend on it (`seqRunW_values`), the number of skew warnings is at most that of "elapsed every time"
+        let ivl := match cfg with | some c => c.intervalNs | none => 0
+        let r := seqRunW cfg (fun lw => lw + ivl) n 0 sc none ⟨0, false⟩
+        match splitCounts impl with
+        | none => "REJECT unparsable"
+        | some (_, _, ws) =>
+          if ws ≤ countW .skew r then s!"{callList r} we={countW .epoch r} ws={ws}"
+          else s!"REJECT {ws} skew warnings, at most {countW .skew r} calls can warn"
+    | _, _, _ => "bad-case"
   | ["mt", _calls, scripts] =>
     match (scripts.splitOn "|").mapM parseScript with
     | none => "bad-case"
     | some scs =>
       let implT := impl.trimAscii.toString
-      match (implT.splitOn "|").mapM parseIntList with
+      match checkMt scs implT with
+      | none => implT
+      | some why => "REJECT " ++ why
+  | ["mtw", w, _calls, scripts] =>
+    match parseW w, (scripts.splitOn "|").mapM parseScript with
+    | some (_, false), some scs =>
+      let implT := impl.trimAscii.toString
+      match splitCounts implT with
       | none => "REJECT unparsable"
-      | some perThread =>
-        if perThread.length ≠ scs.length then "REJECT thread-count" else
-        let tagged : List (Nat × Int) :=
-          (perThread.zipIdx.map (fun (vs, t) => vs.map (fun v => (t, v)))).flatten
-        let sorted := tagged.mergeSort (fun a b => a.2 ≤ b.2)
-        -- per-thread order must agree with the global order
-        let perThreadOk := perThread.all (fun vs => vs.zip vs.tail |>.all (fun (a, b) => a < b))
-        let distinct := (sorted.zip sorted.tail).all (fun (a, b) => a.2 < b.2)
-        if !perThreadOk then "REJECT per-thread-order"
-        else if !distinct then "REJECT duplicate"
-        else match replay scs sorted 0 (List.replicate scs.length 0) [] with
-          | .error why => "REJECT " ++ why
-          | .ok evs =>
-            -- the witness schedule is run through the MODEL's state machine (`Timestamp.run`, the object of
-            -- the C18 theorems): its log of successful CASes must be exactly the observed values
-            if (Timestamp.run St.init evs).log == sorted then implT
-            else "REJECT model-run-differs"
+      | some (vals, _, _) =>
+        match checkMt scs vals with
+        | none => implT
+        | some why => "REJECT " ++ why
+    | _, _ => "bad-case"
+  | ["mtp", w, threads, per, readings] =>
+    match parseW w, threads.toNat?, per.toNat?, parseScript readings with
+    | some (_, false), some th, some pr, some rs =>
+      let implT := impl.trimAscii.toString
+      match splitCounts implT with
+      | none => "REJECT unparsable"
+      | some (vals, _, _) =>
+        match checkRounds th pr (rs.map some) vals with
+        | none => implT
+        | some why => "REJECT " ++ why
+    | _, _, _, _ => "bad-case"
+  | ["mtreal", w, threads, rounds, per, _pause] =>
+    match parseW w, threads.toNat?, rounds.toNat?, per.toNat? with
+    | some (_, false), some th, some rd, some pr =>
+      let implT := impl.trimAscii.toString
+      match splitCounts implT with
+      | none => "REJECT unparsable"
+      | some (vals, _, _) =>
+        match checkRounds th pr (List.replicate rd none) vals with
+        | none => implT
+        | some why => "REJECT " ++ why
+    | _, _, _, _ => "bad-case"
   | _ => "bad-case"
 
 end ScyllaVerif.Drive.C18
